@@ -415,6 +415,52 @@ def check_slices_hist(case, ctx):
     ctx.label('moves:%d' % len(case['moves']))
 
 
+
+# ---- Interferogram coordinates after pad / crop with populated caches ------------------------------------------------------
+def strat_ifg_pad(tier):
+    ax = U.axis_len({'quick': 16, 'thorough': 40}[tier], 3)
+    return st.fixed_dictionaries({'shape': st.tuples(ax, ax).map(list), 'dx': st.sampled_from([1.0, 0.5, 0.2, 2.5]),
+                                  'touch': st.sampled_from(['none', 'x', 'r', 'mask', 'x-and-r']), 'pad': st.tuples(st.integers(0, 4), st.integers(0, 4)).map(list),
+                                  'latcal_first': st.booleans()})
+
+
+def check_ifg_pad(case, ctx):
+    """an interferogram whose coordinates were already in use is padded: afterwards x, y have the data's shape and their exact zero at index n//2 of the padded array."""
+    import warnings
+    from prysm.interferogram import Interferogram
+    ny, nx = case['shape']
+    dx = case['dx']
+    z = _marker((ny, nx))
+    with warnings.catch_warnings():
+        warnings.simplefilter('ignore')
+        i = Interferogram(z.copy(), dx=dx) if not case['latcal_first'] else Interferogram(z.copy())
+        if case['latcal_first']:
+            ctx.call(i.latcal, dx)
+        t = case['touch']
+        if 'x' in t:
+            ctx.call(getattr, i, 'x')
+        if 'r' in t:
+            ctx.call(getattr, i, 'r')
+        if t == 'mask':
+            ctx.call(i.mask, np.ones((ny, nx), dtype=bool))
+        py, px = case['pad']
+        ctx.call(i.pad, samples=(py, px))
+        ctx.nt(t != 'none' and (py or px))
+        ctx.label('touch:' + t, 'pad' if (py or px) else 'pad0')
+        d = np.asarray(i.data)
+        oy, ox = ny + py, nx + px          # 'samples' is the number of samples each axis grows by; pad2d places the data origin-to-origin
+        U.check_shape(d, (oy, ox), 'Interferogram.pad:data')
+        x, y = np.asarray(ctx.call(getattr, i, 'x')), np.asarray(ctx.call(getattr, i, 'y'))
+        U.check_shape(x, d.shape, 'Interferogram.pad:x-shape', 'x after pad (coordinates touched before: %s)' % t)
+        U.check_shape(y, d.shape, 'Interferogram.pad:y-shape', 'y after pad (coordinates touched before: %s)' % t)
+        U.check_close(x, np.broadcast_to(U.cvec(ox) * dx, d.shape), 1e-12, 'Interferogram.pad:x', 'x grid after pad')
+        U.check_close(y, np.broadcast_to((U.cvec(oy) * dx)[:, None], d.shape), 1e-12, 'Interferogram.pad:y', 'y grid after pad')
+        ctx.require(x[0, ox // 2] == 0 and y[oy // 2, 0] == 0, 'Interferogram.pad:zero', 'no exact zero at n//2 after pad')
+        # the data's origin sample moved to the origin sample of the padded array
+        offy, offx = oy // 2 - ny // 2, ox // 2 - nx // 2
+        U.check_equal(d[offy:offy + ny, offx:offx + nx], z, 'Interferogram.pad:placement', 'the origin sample of the data did not move to the origin sample of the padded array')
+
+
 CLAUSES = [
     EnumClause('pad_axis', enum_pad, check_pad_axis),
     EnumClause('crop_axis', enum_crop, check_crop_axis),
@@ -423,5 +469,6 @@ CLAUSES = [
     EnumClause('centroid', enum_centroid, check_centroid),
     HypClause('centroid2', strat_centroid2, check_centroid2, examples={'quick': 300, 'thorough': 3000}),
     HypClause('grids_not_aliased', strat_fresh, check_fresh, examples={'quick': 300, 'thorough': 2000}),
+    HypClause('interferogram_pad_coordinates', strat_ifg_pad, check_ifg_pad, examples={'quick': 250, 'thorough': 1500}),
     HypClause('slices_follow_coordinates', strat_slices_hist, check_slices_hist, examples={'quick': 300, 'thorough': 2000}),
 ]
